@@ -565,7 +565,14 @@ func main() {
 	repo := flag.String("repo", "/repo", "repository root")
 	out := flag.String("out", "", "output .v file")
 	listing := flag.String("json", "", "optional: also write a plain listing (name<TAB>width<TAB>term) here")
+	originsSpec := flag.String("origins", "", "result-origin tie: the frozen specification (spec/origins.json); selects the -origins mode (origins_main.go)")
+	originsProp := flag.String("prop", "", "-origins mode: only the entries of this property (default all)")
+	originsDump := flag.String("origins-dump", "", "-origins mode: instead of checking, list the summaries of all functions of this package")
 	flag.Parse()
+	if *originsSpec != "" || *originsDump != "" {
+		runOrigins(*originsSpec, *originsProp, *repo, *out, *originsDump)
+		return
+	}
 	if *out == "" {
 		fatal("-out required")
 	}
